@@ -148,6 +148,11 @@ class CallFrame(MemorySegment):
         # also for debugging purposes
         self.ret_addr = ret_addr
 
+        # depth of the operand stack when the statement being executed
+        # in this frame started (maintained when the module has debug
+        # info; used to discard partial results on RESUME)
+        self.stmt_stack_depth = None
+
     def set_temp_reference(self, idx, value):
         # get a non reference value, create a temporary cell for it,
         # and then store a reference to it in the given index.
@@ -230,6 +235,17 @@ class QvmCpu:
         self.trap_target = None
         self.error_handler_active = False
         self.trapped_addr = 0
+
+        # operand stack depth at the start of the statement that raised
+        # the error being handled
+        self.trapped_stack_depth = None
+        self._stmt_starts = None
+        if self.module.debug_info is not None:
+            self._stmt_starts = {
+                stmt.start_offset
+                for stmt in self.module.debug_info.stmts
+                if stmt.end_offset > stmt.start_offset
+            }
 
         self.received_keyboard_interrupt = False
         signal.signal(signal.SIGINT, self.signal_handler)
@@ -317,6 +333,11 @@ class QvmCpu:
             self.received_keyboard_interrupt = False
             self._trap(TrapCode.KEYBOARD_INTERRUPT)
             return
+
+        if self._stmt_starts is not None and \
+           self.cur_frame is not None and \
+           self.pc in self._stmt_starts:
+            self.cur_frame.stmt_stack_depth = len(self.stack)
 
         self.prev_pc = self.pc
         instr_addr = self.pc
@@ -423,6 +444,9 @@ class QvmCpu:
 
         if not self.error_handler_active and \
            self.trap_target is not None:
+            self.trapped_stack_depth = None
+            if self.cur_frame is not None:
+                self.trapped_stack_depth = self.cur_frame.stmt_stack_depth
             if self.trap_target == 'next':
                 try:
                     self._exec_errresn()
@@ -796,6 +820,7 @@ class QvmCpu:
                       msg=f'Could not find statement to resume at addr {self.trapped_addr:08x}.')
         self.pc = stmt.start_offset
         self.error_handler_active = False
+        self._discard_partial_results()
 
     def _exec_errresn(self):
         # RESUME NEXT
@@ -808,6 +833,16 @@ class QvmCpu:
                       msg=f'Could not find statement to resume at addr {self.trapped_addr:08x}.')
         self.pc = stmt.end_offset
         self.error_handler_active = False
+        self._discard_partial_results()
+
+    def _discard_partial_results(self):
+        # An error in the middle of a statement leaves the operands
+        # pushed so far on the stack; drop them so that execution
+        # continues as if the statement had not been started.
+        depth = self.trapped_stack_depth
+        if depth is not None and depth <= len(self.stack):
+            del self.stack[depth:]
+        self.trapped_stack_depth = None
 
     def _exec_exp(self):
         b = self.pop()
